@@ -178,6 +178,12 @@ class LanguageClassesFactory:
         self._generate_assets()
         self._generate_associations()
 
+        # An empty 'oneOf' is not a valid JSON schema, a language is however
+        # allowed to define no associations (or no assets) at all.
+        for definition in ('LanguageAsset', 'LanguageAssociation'):
+            if not self.json_schema['definitions'][definition]['oneOf']:
+                del self.json_schema['definitions'][definition]['oneOf']
+
         if logger.isEnabledFor(logging.DEBUG):
             # Avoid running json.dumps when not in debug
             logger.debug(json.dumps(self.json_schema, indent = 2))
